@@ -97,7 +97,11 @@ def modeled(pipe):
 # ---------------------------------------------------------------- running both modes
 
 def plain_group(pipe, items, complete=True, share=False, feedback=False):
-    r = M.run_plain(pipe, items, complete=complete, share_ops=share, feedback=feedback)
+    # one plain run out of three is made behind a store section (a function of the case, so
+    # that a replay makes the same choice)
+    import zlib
+    behind = not feedback and zlib.crc32(json.dumps([pipe, items], sort_keys=True).encode()) % 3 == 0
+    r = M.run_plain(pipe, items, complete=complete, share_ops=share, feedback=feedback, behind_store=behind)
     err_at = 0
     if r['end'] == 'error':
         err_at = max(1, min(r['endstep'], len(items)))
